@@ -19,7 +19,7 @@ EXPLANATION = (
     "out), except the stdin spool (paired create/remove, R15f) and the --log-file handler; R10b the condition "
     "guarding the write-back, the flag returned up the fix chain, the guard of the 'Fixed:' announcement and the "
     "per-run fixed flag have one provenance; R10c every False-initialised flag that is reassigned inside a loop of "
-    "the run driver is reassigned monotonically; R10d a later fault cannot lose the flag. "
+    "the run driver is reassigned monotonically; R10d a later fault cannot lose the flag; R10e (=R15f) every temporary file, the scan-stdin spool included, is removed on every normal and exceptional exit. "
     "Not decided: that a recorded fix actually changed bytes, or that no bytes change without a recorded fix inside "
     "the regeneration (that is C02's round trip); the interpreter's own __pycache__ writes when a plugin module is "
     "imported are outside the property."
@@ -328,6 +328,14 @@ def run(ctx: Context) -> None:
     r10b(ctx)
     r10c(ctx)
     common.fixed_flag_survives_faults(ctx, "R10d", ra)
+    from sa.rules import c15
+
+    # "scan, scan-stdin and listing never ... leave behind any file": the spool of scan-stdin (the one
+    # sink R10a allows on the scan path) is removed on every normal and exceptional exit
+    c15.r15f(ctx, ra)
+    ctx.rules[-1].rule_id = "R10e"
+    for finding in ctx.rules[-1].findings:
+        finding.rule = "R10e"
     if ctx.tier == "thorough":
         from sa.rules import driver_exploration
 
